@@ -211,6 +211,9 @@ def write_replay(ctx, idx, body):
 def finish(ctx, checker_cmd, level='proof'):
     """verdict + evidence. Returns the exit code."""
     violations = []
+    if os.environ.get('VERIF_DEBUG'):
+        json.dump({'failures': ctx.oracle_failures, 'disagreements': ctx.corr_disagreements, 'proof': ctx.proof_problems},
+                  open(ROOT + '/build/debug-%s.json' % ctx.pid, 'w'), indent=1, default=str)
     # 1. concrete failing inputs on the implementation
     for i, f in enumerate(ctx.oracle_failures[:5]):
         p = write_replay(ctx, i, {'kind': 'failing-input', 'what': f['what'], 'replay': f['replay'], 'class': f['class']})
